@@ -364,9 +364,17 @@ fn run_case(case: &Case) -> Verdict {
         world.arg_rewrite.clear();
         if unresolved {
             // stepping out of something that is not a directory: not settled; no panic, then adopt the disk state
+            // (not when the run directory itself is among the named paths: it stays)
+            if spelled.iter().any(|p| p.trim_end_matches('/') == ROOT) && matches!(op, Op::Rm(_, _) | Op::RmMany(_, _) | Op::Rmdir(_) | Op::Mv(_, _)) {
+                continue;
+            }
             let (cmd, args) = command_of(op);
             world.op(cmd, &args, &Want::Any, &args);
             sim::with_core(|c| c.probe("unresolvable-path-alias"));
+            if !Path::new(ROOT).is_dir() {
+                let _ = std::fs::remove_file(ROOT);
+                let _ = std::fs::create_dir_all(ROOT);
+            }
             t = real_tree();
             continue;
         }
